@@ -95,8 +95,20 @@ func (r *Run) finish(crashes []Crash, fatal error) int {
 			inconclusive = append(inconclusive, fmt.Sprintf("shard %d died before its first case (%s): %s", c.Shard, c.Exit, tail([]byte(c.Output), 800)))
 			continue
 		}
+		if c.NotRepeated {
+			inconclusive = append(inconclusive, fmt.Sprintf("shard %d died once (%s; %s) during case %q; the case run again alone in a fresh process completes — not attributable to the code under test from this run alone:\n%s", c.Shard, c.Exit, c.Cause, c.Case, headTail([]byte(c.Output), 1200)))
+			continue
+		}
+		// a child that was killed from OUTSIDE says nothing about the code under test: SIGKILL (the
+		// kernel's OOM killer, an operator), SIGQUIT sent to it, or the Go runtime failing to get
+		// memory from the operating system
+		if strings.Contains(c.Exit, "signal: killed") || strings.HasPrefix(c.Cause, "SIGQUIT") ||
+			strings.Contains(c.Cause, "out of memory") || strings.Contains(c.Cause, "cannot allocate memory") {
+			inconclusive = append(inconclusive, fmt.Sprintf("shard %d was killed from outside or ran out of memory (%s; %s) during case %q", c.Shard, c.Exit, c.Cause, c.Case))
+			continue
+		}
 		r.M.Violations = append(r.M.Violations, Violation{Prop: r.Prop, Key: "kind=crash;case=" + c.Case, Case: c.Case,
-			Detail: fmt.Sprintf("child process died (%s) while running case %s — a fatal runtime error, not a recoverable panic:\n%s", c.Exit, c.Case, c.Output)})
+			Detail: fmt.Sprintf("child process died (%s; %s) while running case %s — a fatal runtime error, not a recoverable panic:\n%s", c.Exit, c.Cause, c.Case, c.Output)})
 	}
 
 	if dump := os.Getenv("VERIF_DUMP_VIOLATIONS"); dump != "" {
